@@ -302,6 +302,14 @@ func contextBG() context.Context { return context.Background() }
 
 func firstLine(s string) string {
 	s = strings.TrimSpace(s)
+	// solvers may print warnings before the answer
+	for strings.HasPrefix(s, "WARNING") || strings.HasPrefix(s, "(warning") {
+		i := strings.IndexByte(s, '\n')
+		if i < 0 {
+			break
+		}
+		s = strings.TrimSpace(s[i+1:])
+	}
 	if i := strings.IndexByte(s, '\n'); i >= 0 {
 		return strings.TrimSpace(s[:i])
 	}
